@@ -450,6 +450,18 @@ def directed():
       ("seq", {"t": "QLSTM", "units": 2, "return_sequences": False,
                "use_bias": True, "kq": qb, "rq": qb, "bq": qb, "sq": None,
                "bidir": True}),
+      # partially / not quantized recurrent layers (each role None in turn)
+      ("seq", {"t": "QGRU", "units": 2, "return_sequences": False,
+               "use_bias": True, "kq": None, "rq": None, "bq": None,
+               "sq": None}),
+      ("seq", {"t": "QGRU", "units": 2, "return_sequences": False,
+               "use_bias": True, "kq": qb, "rq": None, "bq": None, "sq": qb}),
+      ("seq", {"t": "QLSTM", "units": 2, "return_sequences": False,
+               "use_bias": True, "kq": None, "rq": qb, "bq": None,
+               "sq": None}),
+      ("seq", {"t": "QSimpleRNN", "units": 2, "return_sequences": True,
+               "use_bias": True, "kq": None, "rq": None, "bq": qb,
+               "sq": None}),
   ]
   out = []
   for kind, l in layers:
